@@ -142,6 +142,24 @@ def run(ctx):
                 w = [int(round(2 * jj * SJ)) * int(uu) for jj, uu in zip(Js, u)]
                 reqs.append(dict(op="majorana", nV=n, edges=idx.tolist(), w=w, gauge_at=vs[:6]))
                 meta.append((tag, l, H, gauged[:6]))
+    # ---- churn: fresh lattices that are dropped after use (re-used object addresses): entry law and Bloch-free statement only
+    for name, l in zoo.churn(rng, 40 if quick else 300):
+        n, E, idx = l.n_vertices, l.n_edges, l.edges.indices
+        u = (1 - 2 * rng.integers(0, 2, size=E)).astype(np.int8)
+        J = rng.integers(1, 4 * SJ, size=3) / SJ
+        try:
+            H = ham.majorana_hamiltonian(l, None, u, J)
+        except Exception as ex:
+            ctx.impl_violation(f"{name}: majorana_hamiltonian raised {type(ex).__name__}: {ex} on a freshly built lattice", dict(case=name, lattice=zoo.lat_to_json(l), u=u.tolist(), J=J.tolist())); continue
+        want = np.zeros((n, n), dtype=complex)
+        for (a, b), uu in zip(idx, u):
+            want[b, a] += 0.5j * J[0] * uu
+            want[a, b] -= 0.5j * J[0] * uu
+        if H.shape != (n, n) or not np.array_equal(H, want):
+            ctx.impl_violation(f"{name}: on a freshly built lattice H is not the sum over edges of +(i/2)J u at [k,j] and its negative at [j,k]",
+                               dict(case=name, lattice=zoo.lat_to_json(l), u=u.tolist(), J=J.tolist()))
+        ctx.case((name, n, E), nontrivial=True)
+        ctx.count("churn_lattices")
     # ---- bisection on large lattices (more than 1000 vertices; no spectra): the halves must separate every dimer of a perfect-matching colour class,
     #      the edge order, crossings and vertex set must be kept, and the new vertex i must be the old vertex order[i] of a permutation
     from koala import voronization as vz
